@@ -15,6 +15,7 @@ domain).
 import itertools
 import re
 
+from . import values
 from .model import Program, short
 from .values import (UNIT, BoolV, CharV, ClosureV, CollV, EnumV, FnV, INT_RANGES, IterV, NumV,
                      OpaqueV, RefV, StrV, StructV, V, fresh_sym, none, opt_either, path_str,
@@ -159,6 +160,10 @@ class Engine:
         self.contract = None     # callable(callee, caller) -> bool : treat this call by contract
         self.hooks = []          # callables(event, st) for rules that want to observe
         self.call_trace_hook = None
+        self.probing = 0         # > 0 while a loop body is being explored on a scratch state (nothing is recorded)
+        self.loop_rank = {}      # (func, head) -> list of dict(ok, why): ranking argument of `while` loops with a comparison guard
+        self.loop_counters = {}  # (func, head) -> locals the engine treated as the loop's own iteration variable
+        self.exit_class = {}     # (func, head, src bb, dst bb) -> set of bool: early exit taken only after the last element?
 
     # ================= numeric helpers =================================
     def fresh_num(self, st, ty, lo=None, hi=None, name=''):
@@ -1239,6 +1244,8 @@ class Engine:
 
     # ================= obligations =====================================
     def obligation(self, st, fr, bb, kind, desc, span, ok, facts=''):
+        if self.probing:
+            return ok
         key = (fr.func, bb, kind, desc)
         ob = self.oblig.get(key)
         if ob is None:
@@ -1272,19 +1279,55 @@ class Engine:
                     st.htypes[('L', fr.uid, i)] = l['ty']
         if pre is not None:
             pre(st, fr)
+        results = self._explore(st, fr, start_bb, depth)[0]
+        # pop frame
+        out = []
+        for (s2, ret) in results:
+            s2.stack = s2.stack[:-1]
+            for k in [k for k in s2.store if k[0] == 'L' and k[1] == fr.uid]:
+                del s2.store[k]
+            out.append((s2, ret))
+        return out
+
+    def _explore(self, st, fr, start_bb, depth, region=None):
+        """work-list exploration of the body of frame fr from block start_bb: [(state, return value)].
+        region = (head, blocks, guard block): the body of one loop only, from its (already cut) head, on
+        a scratch state: returns also the states at the back edges of that loop and the values of the
+        guard the loop tests"""
+        body = fr.body
+        func = fr.func
         loops, back, idom, preds = body.loops()
         results = []
+        backs = []
+        guards = []
         work = [(st, start_bb, None)]
         vis = self.visited_blocks.setdefault(func, set())
         while work:
             st, bi, prev = work.pop()
             # loop handling
-            if self.cfg.get('unroll'):
+            if region is not None and bi == region[0] and prev is not None and (prev, bi) in back:
+                backs.append(st)
+                continue
+            if region is not None and bi == region[0] and prev is None:
                 pass
+            elif self.cfg.get('unroll'):
+                pass
+            elif bi in loops and st.vn.get(('unrolling', fr.uid, bi)) == 'guard':
+                # a `while` whose guard had a definite value so far: keep executing it as written while
+                # that stays so, otherwise cut the loop here (the rest of its iterations)
+                n = st.vn.get(('unroll-n', fr.uid, bi), 0) + 1
+                st.vn[('unroll-n', fr.uid, bi)] = n
+                if n > 20 or not self.concrete_guard(st, fr, bi, loops[bi], depth):
+                    del st.vn[('unrolling', fr.uid, bi)]
+                    self.check_loop_inv(st, fr, bi, 'entry')
+                    self.havoc_loop(st, fr, bi, loops[bi], depth)
             elif bi in loops and st.vn.get(('unrolling', fr.uid, bi)):
                 pass
             elif bi in loops and (prev is None or (prev, bi) not in back) and self.small_const_loop(st, fr, bi):
                 st.vn[('unrolling', fr.uid, bi)] = True
+            elif bi in loops and (prev is None or (prev, bi) not in back) and self.concrete_guard(st, fr, bi, loops[bi], depth):
+                st.vn[('unrolling', fr.uid, bi)] = 'guard'
+                st.vn[('unroll-n', fr.uid, bi)] = 0
             elif prev is not None and (prev, bi) in back:
                 self.check_loop_inv(st, fr, bi, 'back-edge')
                 for h in self.hooks:
@@ -1292,7 +1335,7 @@ class Engine:
                 continue
             elif bi in loops and (prev is None or (prev, bi) not in back):
                 self.check_loop_inv(st, fr, bi, 'entry')
-                self.havoc_loop(st, fr, bi, loops[bi])
+                self.havoc_loop(st, fr, bi, loops[bi], depth)
             vis.add(bi)
             bb = body.blocks[bi]
             st.steps += 1
@@ -1302,22 +1345,22 @@ class Engine:
             try:
                 for s in bb['stmts']:
                     self.stmt(st, fr, s)
+                if region is not None and bi == region[2] and bb['term']['k'] == 'switch':
+                    guards.append(self.operand(st, fr, bb['term']['discr']))
                 succ = self.terminator(st, fr, bi, bb['term'], depth)
             except Infeasible:
                 continue
             for (s2, nb, ret) in succ:
                 if nb is None:
                     results.append((s2, ret))
-                else:
-                    work.append((s2, nb, bi))
-        # pop frame
-        out = []
-        for (s2, ret) in results:
-            s2.stack = s2.stack[:-1]
-            for k in [k for k in s2.store if k[0] == 'L' and k[1] == fr.uid]:
-                del s2.store[k]
-            out.append((s2, ret))
-        return out
+                    continue
+                if region is not None:
+                    if nb not in region[1]:
+                        continue
+                elif not self.probing:
+                    self.classify_exit(s2, fr, bi, nb)
+                work.append((s2, nb, bi))
+        return results, backs, guards
 
     def stmt(self, st, fr, s):
         k = s['k']
@@ -1687,6 +1730,9 @@ class Engine:
     def loop_iter_desc(self, st, fr, head):
         """('range', lo, hi, incl, opnames) when the loop head calls next() on a range iterator (as it
         stands on entry to the loop), else None"""
+        cd = st.vn.get(('counter-desc', fr.uid, head))
+        if cd is not None:
+            return cd
         t = fr.body.blocks[head]['term']
         if t['k'] != 'call' or t['func']['k'] != 'const' or 'fn' not in t['func'] or not t['args']:
             return None
@@ -1729,7 +1775,8 @@ class Engine:
         for (name, ok, facts) in inv.check_inv(self, st, only_written=w):
             self.obligation(st, fr, head, 'loopinv', '%s@%s' % (name, where), body.blocks[head]['term']['span'], ok, facts)
 
-    def havoc_loop(self, st, fr, head, blocks):
+    def loop_mod(self, fr, blocks):
+        """locals assigned (or mutably borrowed) inside the loop"""
         body = fr.body
         mod = set()
         for b in blocks:
@@ -1747,6 +1794,22 @@ class Engine:
             t = bb['term']
             if t['k'] == 'call' and not any(e['k'] == 'deref' for e in t['dest']['proj']):
                 mod.add(t['dest']['local'])
+        return mod
+
+    def havoc_loop(self, st, fr, head, blocks, depth=0):
+        cinfo = self.probe_loop(st, fr, head, blocks, depth)
+        pre = {}
+        if cinfo:
+            for l in cinfo['mono']:
+                pre[l] = st.store.get(('L', fr.uid, l))
+        self.plain_havoc(st, fr, head, blocks)
+        if cinfo:
+            self.apply_counters(st, fr, head, cinfo, pre)
+        st.log(('loop-head', fr.func, head, fr.uid, self.loop_iter_desc(st, fr, head)))
+
+    def plain_havoc(self, st, fr, head, blocks):
+        body = fr.body
+        mod = self.loop_mod(fr, blocks)
         for l in mod:
             root = ('L', fr.uid, l)
             v = st.store.get(root)
@@ -1776,7 +1839,6 @@ class Engine:
         if w:
             from . import inv
             inv.havoc_screen(self, st, w)
-        st.log(('loop-head', fr.func, head, fr.uid, self.loop_iter_desc(st, fr, head)))
         if S_ROOT in st.store:
             from . import inv as _inv
             try:
@@ -1786,6 +1848,263 @@ class Engine:
                 pass
         # collections reachable from locals that the loop mutates through references: bump versions
         st.vn = {k: v for k, v in st.vn.items() if not (isinstance(k, tuple) and k and k[0] in ('contains', 'fact-coll'))}
+
+    # ---- counting loops (`while i < n { ..; i += 1 }`) ------------------------------------------
+    def guard_chain(self, body, head, blocks):
+        """blocks from the loop head along single in-loop successors up to the first switch; None when
+        that switch does not test a comparison computed in its own block.  -> (chain, guard block,
+        continue-iff-true?)"""
+        cache = body.__dict__.setdefault('_gc', {})
+        if head not in cache:
+            from . import structural
+            cache[head] = structural.guard_switch(body, head, blocks)
+        return cache[head]
+
+    def concrete_guard(self, st, fr, head, blocks, depth):
+        """does the comparison that guards this `while` loop have a definite value in this state?
+        (evaluated on a scratch copy, nothing recorded)"""
+        body = fr.body
+        gc = self.guard_chain(body, head, blocks)
+        if gc is None:
+            return False
+        chain, gbb, cont_true = gc
+        s2 = st.fork()
+        saved = (self.hooks, self.event_hook, self.call_trace_hook)
+        self.hooks, self.event_hook, self.call_trace_hook = [], None, None
+        self.probing += 1
+        try:
+            for b in chain:
+                bb = body.blocks[b]
+                dl = bb['term']['discr']['place']['local'] if b == gbb else None
+                for s_ in bb['stmts']:
+                    if b == gbb and s_['k'] == 'assign' and s_['place']['local'] == dl and not s_['place']['proj'] and s_['rv']['k'] == 'binop':
+                        # definite operands that are at most 16 apart: a short walk, worth executing as written
+                        x = self.operand(s2, fr, s_['rv']['a'])
+                        y = self.operand(s2, fr, s_['rv']['b'])
+                        return isinstance(x, NumV) and isinstance(y, NumV) and x.sym is None and y.sym is None and abs(x.k - y.k) <= 16
+                    self.stmt(s2, fr, s_)
+                if b == gbb:
+                    return False
+                succ = [x for x in self.terminator(s2, fr, b, bb['term'], depth) if x[1] is not None and x[1] in blocks]
+                if len(succ) != 1:
+                    return False
+                s2 = succ[0][0]
+            return False
+        except Budget:
+            raise
+        except Exception:
+            return False
+        finally:
+            self.probing -= 1
+            self.hooks, self.event_hook, self.call_trace_hook = saved
+
+    def probe_loop(self, st, fr, head, blocks, depth):
+        """explore the body of a `while` loop with a comparison guard once on a scratch state (every
+        modified local unknown) and read off, at its back edges, by how much each integer local has
+        moved: {mono: {local: (direction, exact step or None)}, guard: (op, local, bound) or None}"""
+        body = fr.body
+        gc = self.guard_chain(body, head, blocks)
+        if gc is None or self.probing >= 3 or self.cfg.get('no_probe'):
+            return None
+        chain, gbb, cont_true = gc
+        mod = self.loop_mod(fr, blocks)
+        sp = st.fork()
+        water = next(values._sym_counter)
+        try:
+            self.plain_havoc(sp, fr, head, blocks)
+        except Exception:
+            return None
+        heads = {}
+        for l in mod:
+            v = sp.store.get(('L', fr.uid, l))
+            if isinstance(v, NumV) and v.sym is not None and v.sym > water and v.k == 0:
+                heads[l] = v
+        if not heads:
+            return None
+        saved = (self.hooks, self.event_hook, self.call_trace_hook)
+        self.hooks, self.event_hook, self.call_trace_hook = [], None, None
+        self.probing += 1
+        try:
+            results, backs, guards = self._explore(sp, fr, head, depth, region=(head, blocks, gbb))
+        except Budget:
+            raise
+        except Exception:
+            return None
+        finally:
+            self.probing -= 1
+            self.hooks, self.event_hook, self.call_trace_hook = saved
+        mono = {}
+        for l, L in heads.items():
+            lo = hi = None
+            okl = bool(backs)
+            for sb in backs:
+                cur = sb.store.get(('L', fr.uid, l))
+                if not isinstance(cur, NumV):
+                    okl = False
+                    break
+                cs = self._sym(cur)
+                up = sb.zone.get(cs, L.sym)
+                dn = sb.zone.get(L.sym, cs)
+                u = up + cur.k if up != INF else None
+                d = -dn + cur.k if dn != INF else None
+                if cs == L.sym:
+                    u = d = cur.k
+                lo = d if lo is None else (None if d is None or lo == 'x' else min(lo, d))
+                hi = u if hi is None else (None if u is None or hi == 'x' else max(hi, u))
+                if d is None:
+                    lo = 'x'
+                if u is None:
+                    hi = 'x'
+            if not okl:
+                continue
+            lo = None if lo == 'x' else lo
+            hi = None if hi == 'x' else hi
+            if lo is not None and lo >= 0:
+                mono[l] = ('inc', lo if lo == hi and lo > 0 else None, lo)
+            elif hi is not None and hi <= 0:
+                mono[l] = ('dec', -hi if lo == hi and hi < 0 else None, -hi)
+        guard = None
+        why = 'the guard is not a comparison of a local the loop moves with a value the loop leaves alone'
+        if guards:
+            gv = guards[0]
+            atom = gv.atom if isinstance(gv, BoolV) else None
+            if atom and atom[0] == 'cmp' and isinstance(atom[2], NumV) and isinstance(atom[3], NumV):
+                op, a, b = atom[1], atom[2], atom[3]
+                if not cont_true:
+                    op = {'lt': 'ge', 'le': 'gt', 'gt': 'le', 'ge': 'lt'}.get(op)
+                flip = {'lt': 'gt', 'le': 'ge', 'gt': 'lt', 'ge': 'le'}
+                for l, L in heads.items():
+                    if a.sym == L.sym and b.sym != L.sym:
+                        cand = (op, l, a.k, b)
+                    elif b.sym == L.sym and a.sym != L.sym:
+                        cand = (flip.get(op), l, b.k, a)
+                    else:
+                        continue
+                    bound = cand[3]
+                    if cand[0] is None or (bound.sym is not None and bound.sym > water):
+                        why = 'the bound the guard compares with is recomputed by the loop'
+                        continue
+                    guard = cand
+                    break
+        rank_ok = False
+        if not backs:
+            rank_ok, why = True, 'no path through the body reaches the back edge'
+        elif guard is not None:
+            op, l, off, bound = guard
+            m = mono.get(l)
+            if m and m[0] == 'inc' and m[2] >= 1 and op in ('lt', 'le'):
+                rank_ok, why = True, '%s rises by at least %d per iteration and the loop continues only while it is %s a value the loop does not change' % (
+                    body.local_name(l), m[2], 'below' if op == 'lt' else 'at most')
+            elif m and m[0] == 'dec' and m[2] >= 1 and op in ('gt', 'ge'):
+                rank_ok, why = True, '%s falls by at least %d per iteration and the loop continues only while it is %s a value the loop does not change' % (
+                    body.local_name(l), m[2], 'above' if op == 'gt' else 'at least')
+            else:
+                why = '%s is compared (%s) with a fixed value but is not shown to move towards it on every path through the body (%s)' % (
+                    body.local_name(l), op, m)
+        if not self.probing:
+            self.loop_rank.setdefault((fr.func, head), []).append(dict(ok=rank_ok, why=why, paths=len(backs)))
+        if not mono:
+            return None
+        return dict(mono=mono, guard=guard)
+
+    def apply_counters(self, st, fr, head, cinfo, pre):
+        """after the cut: what the probe established about the integer locals of the loop.  A local that
+        only rises stays at or above its value on entry; the local the guard tests, when it moves by a
+        fixed step, is the element of a range iteration"""
+        body = fr.body
+        for l, (dirn, step, least) in cinfo['mono'].items():
+            L = st.store.get(('L', fr.uid, l))
+            l0 = pre.get(l)
+            if not (isinstance(L, NumV) and isinstance(l0, NumV)):
+                continue
+            if dirn == 'inc':
+                self.assume_le(st, l0, L)
+            else:
+                self.assume_le(st, L, l0)
+        g = cinfo.get('guard')
+        if not g:
+            return
+        op, l, off, bound = g
+        m = cinfo['mono'].get(l)
+        L = st.store.get(('L', fr.uid, l))
+        l0 = pre.get(l)
+        if not m or m[1] is None or off != 0 or not (isinstance(L, NumV) and isinstance(l0, NumV)) or L.sym is None or L.k != 0:
+            return
+        dirn, step, least = m
+        ty = L.ty
+        if dirn == 'inc' and op in ('lt', 'le'):
+            ops = () if step == 1 else (('step_by', NumV(None, step, 'usize')),)
+            it = IterV('range', 'std::ops::Range<%s>' % ty, (l0, bound, op == 'le'), ops=ops)
+            elem = L
+        elif dirn == 'dec' and step == 1 and op == 'ge':
+            it = IterV('range', 'std::ops::RangeInclusive<%s>' % ty, (bound, l0, True), ops=(('rev',),))
+            elem = L
+        elif dirn == 'dec' and step == 1 and op == 'gt':
+            # the body runs for head values bound+1 ..= l0: the element is the head value less one
+            e = fresh_sym(body.local_name(l) + '@elem')
+            st.zone.add(Z, e, 1)                      # e >= -1
+            elem = NumV(e, 0, ty)
+            st.store[('L', fr.uid, l)] = NumV(e, 1, ty)
+            self.assume_le(st, NumV(e, 1, ty), l0)
+            rlo, rhi = INT_RANGES.get(ty, (None, None))
+            if rhi is not None:
+                st.zone.add(e, Z, rhi - 1)
+            it = IterV('range', 'std::ops::Range<%s>' % ty, (bound, l0, False), ops=(('rev',),))
+        else:
+            return
+        st.vn[('itersym', elem.sym)] = it
+        self.loop_counters.setdefault((fr.func, head), set()).add(l)
+        st.vn[('counter', fr.uid, head)] = dict(local=l, elem=elem, dir=dirn, step=step, lo=it.args[0], hi=it.args[1], incl=it.args[2])
+        st.vn[('counter-desc', fr.uid, head)] = ('range', it.args[0], it.args[1], bool(it.args[2]), tuple(o[0] for o in it.ops))
+
+    def exit_edges(self, body):
+        """{(src, dst): [loop heads]}: edges that leave a loop elsewhere than at its head test"""
+        ee = getattr(body, '_exit_edges', None)
+        if ee is not None:
+            return ee
+        ee = {}
+        loops = body.loops()[0]
+        for h, blocks in loops.items():
+            hs = [x for x in body.succs(h) if not body.blocks[x].get('cleanup')]
+            ok_src = {h}
+            gc = self.guard_chain(body, h, blocks)
+            if gc:
+                ok_src |= set(gc[0])
+            elif body.blocks[h]['term']['k'] == 'call' and len(hs) == 1 and body.blocks[hs[0]]['term']['k'] == 'switch':
+                ok_src.add(hs[0])
+            for b in blocks:
+                if b in ok_src:
+                    continue
+                for s2 in body.succs(b):
+                    if s2 not in blocks and not body.blocks[s2].get('cleanup') and body.blocks[s2]['term']['k'] != 'unreachable':
+                        ee.setdefault((b, s2), []).append(h)
+        try:
+            body._exit_edges = ee
+        except Exception:
+            pass
+        return ee
+
+    def classify_exit(self, st, fr, bi, nb):
+        """an edge that leaves a loop from the middle of its body: is it taken only when the element in
+        hand is the last one of the range the loop counts through?"""
+        ee = self.exit_edges(fr.body)
+        hs = ee.get((bi, nb))
+        if not hs:
+            return
+        for h in hs:
+            ci = st.vn.get(('counter', fr.uid, h))
+            final = False
+            if ci:
+                e = ci['elem']
+                if ci['dir'] == 'inc':
+                    nxt = NumV(e.sym, e.k + ci['step'], e.ty)
+                    final = self.prove_cmp(st, 'lt' if ci['incl'] else 'le', ci['hi'], nxt) is True
+                else:
+                    final = self.prove_le(st, e, ci['lo']) is True
+            self.exit_class.setdefault((fr.func, h, bi, nb), set()).add(bool(final))
+            if final:
+                for hk in self.hooks:
+                    hk('backedge', st.fork(), fr, h)
 
 
 class DiscrV(V):
